@@ -442,3 +442,99 @@ Proof.
   split; [intros i Hi; exact (read_through bc mc tr t0 Hwf Hmwf Hfit Hidle Hreq Hword k r Hk Hinw Hsel Hre Hrd i Hi)|].
   exact (ack_through bc mc tr t0 Hwf Hidle Hreq).
 Qed.
+
+(* ------------------------------------------------------------------------------------------ *)
+(* closed form of the write data; a register that fills the word                              *)
+(* ------------------------------------------------------------------------------------------ *)
+
+(* the concatenation of lanes o, o+1, ... of z, clipped to `width`, is the width-bit field of z that
+   starts at lane o (n lanes covering the width, as the memory map guarantees for its registers) *)
+Lemma lanes_concat bc o width z n : 0 < B.c_g bc -> 0 <= o -> 0 <= width -> width <= Z.of_nat n * B.c_g bc ->
+  assemble (B.c_g bc) width (fun j => B.lane bc (o + j) z) n = slice (o * B.c_g bc) width z.
+Proof.
+  intros Hg Ho Hw Hcov. apply Z.bits_inj'. intros b Hb.
+  rewrite assemble_full_testbit by auto.
+  assert (Ho' : 0 <= o * B.c_g bc) by (apply Z.mul_nonneg_nonneg; lia).
+  rewrite slice_testbit by auto.
+  destruct (Z.ltb_spec b width) as [Hlt|Hge]; [|reflexivity].
+  pose proof (Z.div_mod b (B.c_g bc) ltac:(lia)) as Hdm.
+  pose proof (Z.mod_pos_bound b (B.c_g bc) Hg) as Hm.
+  assert (Hq : 0 <= b / B.c_g bc) by (apply Z.div_pos; lia).
+  unfold B.lane. rewrite slice_testbit; [| apply Z.mul_nonneg_nonneg; lia | lia | lia].
+  destruct (Z.ltb_spec (b mod B.c_g bc) (B.c_g bc)); [|lia]. f_equal. lia.
+Qed.
+
+(* the word contains exactly one register, which fills it, and every granule is selected *)
+Definition fills_word (bc : B.cfg) (a : Z) (r : M.reg) : Prop :=
+  M.r_start r = a * B.ratio bc /\ M.r_stop r = a * B.ratio bc + B.ratio bc.
+Definition all_selected (bc : B.cfg) (sel : Z) : Prop :=
+  forall i, 0 <= i < B.ratio bc -> Z.testbit sel i = true.
+
+Lemma fills_in_word bc a r : fills_word bc a r -> reg_in_word bc a r.
+Proof. intros (E0 & E1). unfold reg_in_word. lia. Qed.
+
+Lemma all_reg_selected bc a sel r : fills_word bc a r -> all_selected bc sel -> reg_selected bc a sel r.
+Proof. intros (E0 & E1) Hall i Hi. apply Hall. lia. Qed.
+
+Theorem atomic_write_whole_word bc mc tr t0 k r :
+  BP.wf bc -> wf_cfg mc -> fits bc mc ->
+  BP.idle (fst (cstate_at bc mc tr t0)) -> BP.req_held (wb_trace tr) t0 (BP.nratio bc) ->
+  let x := tr t0 in
+  let R := BP.nratio bc in
+  word_in_range bc (x_adr x) ->
+  nth_error (M.c_regs mc) k = Some r -> fills_word bc (x_adr x) r -> all_selected bc (x_sel x) ->
+  x_we x = true -> M.r_wr r = true -> M.r_width r <= B.ratio bc * M.c_dw mc ->
+  (forall j, (j <= R + 2)%nat ->
+     nth_error (M.o_wstb (elem_out_at bc mc tr (t0 + j))) k = Some (j =? R)%nat) /\
+  nth_error (M.o_wdata (elem_out_at bc mc tr (t0 + R))) k = Some (trunc (M.r_width r) (x_dat_w x)) /\
+  (forall j, (j <= R)%nat -> B.o_ack (wb_out_at bc mc tr (t0 + j)) = false) /\
+  B.o_ack (wb_out_at bc mc tr (t0 + R + 1)) = true.
+Proof.
+  intros Hwf Hmwf Hfit Hidle Hreq x R Hword Hk Hfill Hall Hwe Hwr Hwidth.
+  pose proof (atomic_write_through_mux bc mc tr t0 k r Hwf Hmwf Hfit Hidle Hreq Hword Hk
+                (fills_in_word _ _ _ Hfill) (all_reg_selected _ _ _ _ Hfill Hall) Hwe Hwr) as H.
+  cbv zeta in H. fold x in H. destruct Hfill as (E0 & E1). fold x in E0, E1.
+  pose proof (BP.nratio_eq bc Hwf) as HR. fold R in HR.
+  assert (Ege : Z.to_nat (M.r_stop r - x_adr x * B.ratio bc) = R) by lia.
+  assert (Egf : Z.to_nat (M.r_start r - x_adr x * B.ratio bc) = 0%nat) by lia.
+  rewrite Ege, Egf in H. destruct H as (_ & Hs & Hd & Ha).
+  split; [exact Hs|]. split; [|exact Ha].
+  rewrite Hd. f_equal.
+  assert (Hg : 0 < B.c_g bc) by (rewrite Hfit; apply Hmwf).
+  assert (Hw0 : 0 <= M.r_width r).
+  { destruct Hmwf as (_ & Hl & _). apply nth_error_In in Hk.
+    destruct (MR.layout_from_In _ _ _ Hl Hk) as (_ & _ & Hw0). exact Hw0. }
+  rewrite <- Hfit. change (Z.of_nat 0) with 0.
+  rewrite (lanes_concat bc 0 (M.r_width r) (x_dat_w x)); auto; try lia.
+  - unfold slice. rewrite Z.mul_0_l, Z.pow_0_r, Z.div_1_r. reflexivity.
+  - unfold reg_len. rewrite Hfit. rewrite Z2Nat.id by lia. nia.
+Qed.
+
+Theorem atomic_read_whole_word bc mc tr t0 k r :
+  BP.wf bc -> wf_cfg mc -> fits bc mc ->
+  BP.idle (fst (cstate_at bc mc tr t0)) -> BP.req_held (wb_trace tr) t0 (BP.nratio bc) ->
+  let x := tr t0 in
+  let R := BP.nratio bc in
+  word_in_range bc (x_adr x) ->
+  nth_error (M.c_regs mc) k = Some r -> fills_word bc (x_adr x) r -> all_selected bc (x_sel x) ->
+  x_we x = false -> M.r_rd r = true ->
+  (forall j, (j <= R + 1)%nat ->
+     nth_error (M.o_rstb (elem_out_at bc mc tr (t0 + j))) k = Some (j =? 0)%nat) /\
+  (forall i, (i < R)%nat ->
+     B.lane bc (Z.of_nat i) (B.o_dat_r (wb_out_at bc mc tr (t0 + R + 1))) =
+     M.word (M.c_dw mc) (M.r_width r) (Z.of_nat i) (trunc (M.r_width r) (nth k (x_rvals x) 0))) /\
+  (forall j, (j <= R)%nat -> B.o_ack (wb_out_at bc mc tr (t0 + j)) = false) /\
+  B.o_ack (wb_out_at bc mc tr (t0 + R + 1)) = true.
+Proof.
+  intros Hwf Hmwf Hfit Hidle Hreq x R Hword Hk Hfill Hall Hre Hrd.
+  pose proof (atomic_read_through_mux bc mc tr t0 k r Hwf Hmwf Hfit Hidle Hreq Hword Hk
+                (fills_in_word _ _ _ Hfill) (all_reg_selected _ _ _ _ Hfill Hall) Hre Hrd) as H.
+  cbv zeta in H. fold x in H. destruct Hfill as (E0 & E1). fold x in E0, E1.
+  pose proof (BP.nratio_eq bc Hwf) as HR. fold R in HR.
+  assert (Ege : Z.to_nat (M.r_stop r - x_adr x * B.ratio bc) = R) by lia.
+  assert (Egf : Z.to_nat (M.r_start r - x_adr x * B.ratio bc) = 0%nat) by lia.
+  rewrite Ege, Egf in H. destruct H as (_ & Hs & Hd & Ha).
+  split; [exact Hs|]. split; [|exact Ha].
+  intros i Hi. specialize (Hd i ltac:(lia)). rewrite Nat.add_0_r in Hd. change (Z.of_nat 0) with 0 in Hd.
+  rewrite Z.sub_0_r in Hd. exact Hd.
+Qed.
